@@ -87,6 +87,7 @@ THEOREMS = [
     "PP.Diagram.named_cycle_ok",
     "PP.Diagram.links_resolve_partial",
     "PP.Diagram.root_first_partial",
+    "PP.Diagram.root_first_unnamed_partial",
     "PP.Diagram.no_empty_placeholder_partial",
     "PP.Diagram.no_empty_placeholder_output_partial",
     "PP.Diagram.no_empty_placeholder_tree_partial",
